@@ -71,6 +71,7 @@ func init() {
 			{ID: "C05.R3", Doc: "no path ending in a panic of Insert, Replace, Get, Delete, Pop, SubList, Sort writes a list before it", Run: c05WriteBeforePanic},
 			{ID: "C05.R4", Doc: "OWN: no two containers ever share a backing array (package-wide)", Run: func(c *Ctx) { c.R.Floor("C05.R4", ownRule(c, "C05.R4"), 8) }},
 			{ID: "C05.R6", Doc: "reference semantics: Get returns spine[index].getVal(); IndexOf compares getVal() with ==", Run: c05Reference},
+			{ID: "C05.R9", Doc: "NewListOf(v, n): v is normalised once, before the loop, and that one field is installed n times (n aliases of one element, not n conversions)", Run: c05ListOf},
 			{ID: "C05.R8", Doc: "Reverse moves element i to n-1-i in place (= C17.R2)", Run: func(c *Ctx) { reverseRule(c, "C05.R8") }},
 			{ID: "C05.R7", Doc: "PURE: the observers (and SubList, Concat) write nothing pre-existing", Run: func(c *Ctx) {
 				var names []string
@@ -1010,6 +1011,9 @@ func init() {
 			"Heterogeneous lists and the empty list for Sort are outside the property's domain.",
 		Rules: []Rule{
 			{ID: "C17.R1", Doc: "Sort: kind test on element 0 <-> typed slice of that kind <-> trusted sort function on that slice <-> NewListFrom(slice) spine handed to the receiver; no kind => panic before any write; fluent return", Run: c17Sort},
+			{ID: "C17.R3", Doc: "the rebuild through NewListFrom keeps every element: the From-constructor copies element-wise without filtering (= C12.R2)", Run: func(c *Ctx) {
+				c.R.Floor("C17.R3", runAs(c, "C17.R3", c12R2, func(o *Obligation) bool { return strings.Contains(o.Construct, "NewListFrom") }), 7)
+			}},
 			{ID: "C17.R2", Doc: "Reverse: swaps exactly the mirrored pairs (i, n-1-i), i < n/2 (header simulated for n=0..9), by a parallel swap on the receiver's spine; no other write", Run: c17Reverse},
 		},
 	})
@@ -1317,4 +1321,85 @@ func reverseRule(c *Ctx, R string) {
 		sob.Ok("parallel swap v[a], v[b] = v[b], v[a] on the receiver's spine; nothing else is written")
 	}
 	c.Ob(R, "(*list).Reverse/return", fd.Pos()).Check(p.End == "return" && len(p.Vals) == 1 && v.isEgo(p.Vals[0]), "fluent return", "Reverse does not return ego")
+}
+
+// c05ListOf: the constructor's single path builds a fresh list, and its loop — exactly `count` iterations for count = 0..3 — installs in
+// every iteration the same field: parseVal(value) evaluated BEFORE the loop (a conversion inside the loop would create a distinct nested
+// container per slot when the value is a native slice or map).
+func c05ListOf(c *Ctx) {
+	fd := c.NeedDecl("C05.R9", "NewListOf")
+	if fd == nil {
+		return
+	}
+	ob := c.Ob("C05.R9", "NewListOf", fd.Pos())
+	paths, why := c.runPaths(fd)
+	if why != "" {
+		ob.Undecided("body outside the path vocabulary: %s", why)
+		return
+	}
+	var value, count types.Object
+	for _, f := range fd.Type.Params.List {
+		for _, nm := range f.Names {
+			o := c.Info.Defs[nm]
+			if isIntType(o.Type()) {
+				count = o
+			} else {
+				value = o
+			}
+		}
+	}
+	p, loop, msg := singleLoopPath(paths)
+	if msg != "" || value == nil || count == nil {
+		ob.Fail("NewListOf is not one loop installing the element (%s)", msg)
+		return
+	}
+	if p.End != "return" || len(p.Vals) != 1 {
+		ob.Fail("NewListOf does not return the list it builds")
+		return
+	}
+	result := p.Vals[0]
+	// trip count
+	for n := int64(0); n <= 3; n++ {
+		hook := func(t Term) (int64, bool) {
+			if isParamTerm(t, count) {
+				return n, true
+			}
+			return 0, false
+		}
+		its, w := c.loopIterations(loop, hook, 16)
+		if loop.Range != nil || w != "" || int64(len(its)) != n {
+			ob.Fail("the loop does not run exactly count times (count=%d: %d iterations %s)", n, len(its), w)
+			return
+		}
+	}
+	if len(loop.Iter) != 1 || len(loop.Iter[0].Conds()) != 0 || len(loop.Iter[0].Effects()) != 1 || (loop.Iter[0].End != "fall" && loop.Iter[0].End != "continue") {
+		ob.Fail("the loop body is not one unconditional installation of the element")
+		return
+	}
+	st := loop.Iter[0].Effects()[0]
+	var elem Term
+	if st.Kind == "store" {
+		if sel, ok := st.LHS.(TSel); ok && sameContainer(sel.X, result) {
+			if ap, ok := st.RHS.(TBuiltin); ok && ap.Name == "append" && len(ap.Args) == 2 {
+				if s2, ok := ap.Args[0].(TSel); ok && sameContainer(s2.X, result) {
+					elem = ap.Args[1]
+				}
+			}
+		}
+		if ix, ok := st.LHS.(TIndex); ok {
+			if sel, ok := ix.X.(TSel); ok && sameContainer(sel.X, result) {
+				elem = st.RHS
+			}
+		}
+	}
+	pv, ok := elem.(TCall)
+	if elem == nil || !ok || pv.Fun == nil || pv.Fun.Name() != "parseVal" || pv.Fun.Pkg() != c.Types || len(pv.Args) != 1 || !isParamTerm(pv.Args[0], value) {
+		ob.Fail("an iteration does not install parseVal(value) directly into the new list's spine (a per-slot Add/Insert converts the value again for every slot)")
+		return
+	}
+	if pv.Epoch >= loop.HeadEpoch {
+		ob.Fail("parseVal(value) is evaluated inside the loop: a native slice or map value becomes a distinct container in every slot instead of one shared element")
+		return
+	}
+	ob.Ok("value normalised once before the loop; the same field appended in each of exactly count iterations (count = 0..3 folded)")
 }
